@@ -102,6 +102,41 @@ def handleLimit (args : List String) (obs : String) : String :=
   | _ => "bad-case\tFAIL:bad-case"
 
 
+/-- Requests a connection task serves when `k` are waiting and its permit is revoked by the handler of the `j`-th
+    (0: before the task starts; none: never): the loop of `Server.cstep`, the permit read at each `loopTop`. -/
+def servedUnder (k : Nat) (j : Option Nat) : Nat → ConnSt → Nat
+  | 0, c => c.responses
+  | f + 1, c =>
+    let rev := match j with | some j => decide (c.responses ≥ j) | none => false
+    match cstep rev c .loopTop with
+    | some c1 =>
+      if c1.st = .closed then c1.responses
+      else if c1.responses < k then
+        match crun rev c1 [.request, .respond] with
+        | some c2 => servedUnder k j f c2
+        | none => c1.responses
+      else c1.responses
+    | none => c.responses
+
+/-- c13p `<k> <j>` -/
+def handlePermit (args : List String) (obs : String) : String :=
+  match args with
+  | [kS, jS] =>
+    match kS.toNat? with
+    | some k =>
+      let n := servedUnder k jS.toNat? (k + 2) ⟨.check, 0⟩
+      let model := s!"served={n} calls={n}"
+      let verdict :=
+        if obs == "PANIC" then "FAIL:panic:" else
+        let served := (field obs "served").toNat!
+        let fails := (if jS == "0" && served > 0 then ["served-after-revocation"] else []) ++
+          (match jS.toNat? with | some j => if j > 0 && served > j then ["more-than-the-request-in-flight"] else [] | none => []) ++
+          (match jS.toNat? with | some j => if j > 0 && served < min j k then ["in-flight-request-not-completed"] else [] | none => if served < k then ["request-not-served"] else [])
+        if fails.isEmpty then "ok" else "FAIL:" ++ ",".intercalate fails ++ ":"
+      model ++ "\t" ++ verdict
+    | none => "bad-case\tFAIL:bad-case"
+  | _ => "bad-case\tFAIL:bad-case"
+
 /-- c12b `<size> <back>`: every unit of a large set is taken, `back` of them are dropped, as many are taken again
     (model: `C12_tokens`: units + live = size in every reachable state, so exactly `back` units are available again). -/
 def handleTokensBig (args : List String) (obs : String) : String :=
